@@ -86,3 +86,31 @@ def ts_to_kernel(sel):
     else:
         return None
     return net, port, mask, sel['proto']
+
+
+def ts_cover(sel):
+    """What a kernel selector can say at best for any traffic selector: (smallest network that holds the address range, (first, last) port,
+    protocol).  For a CIDR block x {one port | all ports} this is what ts_to_kernel() gives."""
+    fam = 4 if sel['ts_type'] == 7 else 6
+    bits = 32 if fam == 4 else 128
+    a, z = int.from_bytes(sel['saddr'], 'big'), int.from_bytes(sel['eaddr'], 'big')
+    host = (a ^ z).bit_length()
+    base = (a >> host) << host
+    net = ipaddress.ip_network((base, bits - host)) if fam == 4 else ipaddress.IPv6Network((base, bits - host))
+    return net, (sel['sport'], sel['eport']), sel['proto']
+
+
+def kernel_half_vs_cover(net, port, mask, cover):
+    """None when one half (network, port, mask) of a kernel selector is right for a traffic selector given as ts_cover(): the network is the
+    smallest one that holds the whole range (anything smaller leaves negotiated addresses unprotected, anything larger may leave the policy),
+    the ports are all ports when all were negotiated, else one port out of the negotiated range (a kernel selector cannot say a range; never
+    more than was negotiated).  Else the name of the field that is off."""
+    cnet, (lo, hi), _ = cover
+    if net != cnet:
+        return 'net'
+    if (lo, hi) == (0, 65535):
+        return None if (port, mask) == (0, 0) else 'port'
+    if mask != 0xFFFF or not lo <= port <= hi:
+        return 'port'
+    return None
+
